@@ -121,7 +121,9 @@ def run_behaviour(bid, beh, seed, observe=None, expose=None):
                 if not execute.same_reading(m, text):
                     events.append(execute.parse_event(eid, "msg"))
                     return events
-                live[idx] = (m, str(m), expose(m, mabs["cls"]) if expose else None, text)
+                # (every other message is looked at only after its first merge: reading `msg.story` & co beforehand may prepare what
+                # the merge would otherwise do itself)
+                live[idx] = (m, str(m), expose(m, mabs["cls"]) if expose and idx % 2 == 0 else None, text)
             else:
                 if step["ref"] not in live:
                     continue
@@ -146,7 +148,10 @@ def run_behaviour(bid, beh, seed, observe=None, expose=None):
                 fout = fres if fstatus == "ok" and isinstance(fres, execute.RunningOrder) else shadow[0]
                 ev["fresh_eq"] = (fstatus, fwarns, str(fout)) == (status, warns, str(objs[o]))
             if expose:
-                ev["expose_intact"] = all(expose(mm, type(mm).__name__) == x0 for mm, _, x0, _t in live.values())
+                ev["expose_intact"] = all(expose(mm, type(mm).__name__) == x0 for mm, _, x0, _t in live.values() if x0 is not None)
+                for j, (mm, s0, x0, t0) in list(live.items()):
+                    if x0 is None:
+                        live[j] = (mm, s0, expose(mm, type(mm).__name__), t0)
         elif kind == "reload":
             text = str(ro)
             try:
